@@ -204,7 +204,8 @@ class C01(Check):
         sched = [(d, re.sub(r";fault=[^;]*", "", p)) for d, p in schedules(seed, [d for d, _ in cases[: max(600, len(cases) // 3)]])]
         return [Job("root-block headers", cases, corr=corr, judge_mode="judge:C01"),
                 Job("formal statement on the implementation's trees", cases, corr=statement_corr("C01"), corr_is_spec=True),
-                Job("streaming entry point under read schedules", sched, judge_mode="judge:C01")]
+                Job("streaming entry point under read schedules", sched, judge_mode="judge:C01",
+                    corr=two_sided("stream", "stream", lambda d: proj_headers(d.split("\t")[0]), "root-block headers of the streaming run under the schedule (model: main/Stream.v)"))]
 
 
 reg(C01("C01"))
@@ -232,10 +233,11 @@ reg(C03("C03"))
 
 class C05(TreeCheck):
     obligations = [("main", "L2CCfull", "parseFull_contain"), ("main", "L2Kind2", "parseBlocks_kinds"), ("main", "NoUnpFull", "C05_noUnparsed"),
-                   ("main", "Clos12full", "C12_closure"), ("main", "Rec16", "ordered_number_range")]
+                   ("main", "Clos12full", "C12_closure"), ("main", "Rec16", "ordered_number_range"),
+                   ("main", "GramBlocks", "parseBlocks_gramBlocks"), ("main", "GramBlocks", "parseFull_gramBlocks")]
     proj = staticmethod(proj_kinds)
     what = "node kinds and accessor values"
-    assumptions = ["partial: proved for every input: canContain closure, entry kinds per block kind, no Unparsed node, reference closure, item number range; the remaining grammar clauses are decided by the correspondence plus the grammar oracle"]
+    assumptions = ["partial: proved for every input: canContain closure, entry kinds per block kind, no Unparsed node, reference closure, item number range, and all block-level clauses of the grammar (parseFull_gramBlocks: every list item starts with exactly one marker, markers and thematic breaks are childless, a definition is [label; destination] or [label; destination; title], list/item agreement on ordered and on tight, heading levels 1-6 / 1-2); the inline-level clauses (phrasing content, link tails, no link in a link) are decided by the correspondence plus the grammar oracle and the formal statement evaluated on the implementation's trees"]
 
     def jobs(self, seed, tier):
         js = TreeCheck.jobs(self, seed, tier)
@@ -679,8 +681,10 @@ def schedules(seed, ds):
 class C08(Check):
     rule = DOC_RULE + "; each document under a read schedule (1-byte reads, empty reads, random caps, cuts after every CR / inside multi-byte characters and NUL runs, data returned with the final error or not) and, for 40 %, a fault after k bytes with one of two error values; plus inputs straddling the 8 KiB chunk size"
     obligations = [("stream", "ReaderProof", "readline_sim"), ("stream", "BPProof", "next_block_sim"), ("stream", "C08", "C08_stream_eq"), ("stream", "C08", "C08_fault"),
-                   ("stream", "ReaderProof", "read_spec")]
-    assumptions = ["C08_stream_eq / C08_fault are proved for the stream-layer model (readline, NextBlock, makeRoot) over an arbitrary block machine satisfying three stated laws, for every input below the block-size limit, every read schedule and every fault point; the tie to parse.go is the correspondence of the concrete streaming model (main/Stream.v: the same readline under a scripted reader composed with the real block machine) with the implementation under the same schedule: blocks, trees, reference map, final error, its persistence, and the Read-call log",
+                   ("stream", "ReaderProof", "read_spec"),
+                   ("main", "StreamRd", "readlineS_sim"), ("main", "StreamSim", "nextBlock_sim"), ("main", "StreamFuel", "nextBlock_adequate"),
+                   ("main", "StreamEq", "parseStream_eq_partial"), ("main", "StreamEq", "parseStream_fault"), ("main", "StreamEq", "parseStream_eq_from_consume")]
+    assumptions = ["on the concrete model (main/Stream.v composed with the real block machine): parseStream_eq_partial — for every input below the block-size limit, every list of read caps (0 allowed), both ways of reporting the final error and every final error code, the streaming run returns exactly the root blocks and code of the in-memory run, the final error, and the same error on three further calls — under the one hypothesis that the in-memory run does not exhaust its outer fuel (code <> -1), which is the still-open totality of the block layer (parseStream_eq_from_consume reduces the unconditional statement to it); nextBlock_adequate: the in-memory nextBlock does not depend on surplus fuel", "C08_stream_eq / C08_fault are proved for the stream-layer model (readline, NextBlock, makeRoot) over an arbitrary block machine satisfying three stated laws, for every input below the block-size limit, every read schedule and every fault point; the tie to parse.go is the correspondence of the concrete streaming model (main/Stream.v: the same readline under a scripted reader composed with the real block machine) with the implementation under the same schedule: blocks, trees, reference map, final error, its persistence, and the Read-call log",
                    "Extract and Rewrite are functions of the blocks, so equality of trees and reference map follows from equality of the blocks"]
 
     def jobs(self, seed, tier):
